@@ -2,6 +2,7 @@ import GoCrypt.Props.C02Core
 import GoCrypt.Props.C10
 import GoCrypt.Gen.Flow
 import GoCrypt.Props.EndToEnd
+import GoCrypt.Props.FlowModel
 
 /-!
 # C12 — generated hashes are canonical and Params, Key and Check agree with each other
@@ -80,4 +81,37 @@ theorem defaults_are_documented :
 #print axioms GoCrypt.EndToEnd.params_of_newHash_argon2
 #print axioms GoCrypt.EndToEnd.params_of_newHash_argon2'
 
+-- the pipeline model IS the regenerated code (Props/FlowModel.lean): a value semantics of the flow IR, instantiated with the model's own
+-- unmarshal / key / encoders, evaluates the IR regenerated from the current source to exactly Scheme.newHash, Scheme.params and Scheme.check, for all inputs
+#print axioms GoCrypt.FlowModel.flowCheck_eq_model_md5
+#print axioms GoCrypt.FlowModel.flowCheck_eq_model_sha256
+#print axioms GoCrypt.FlowModel.flowCheck_eq_model_sha512
+#print axioms GoCrypt.FlowModel.flowCheck_eq_model_sha1
+#print axioms GoCrypt.FlowModel.flowCheck_eq_model_sunmd5
+#print axioms GoCrypt.FlowModel.flowCheck_eq_model_des
+#print axioms GoCrypt.FlowModel.flowCheck_eq_model_desext
+#print axioms GoCrypt.FlowModel.flowCheck_eq_model_bcrypt
+#print axioms GoCrypt.FlowModel.flowCheck_eq_model_nthash
+#print axioms GoCrypt.FlowModel.flowCheck_eq_model_argon2
+
+#print axioms GoCrypt.FlowModel.flowNewHash_eq_model_md5
+#print axioms GoCrypt.FlowModel.flowNewHash_eq_model_des
+#print axioms GoCrypt.FlowModel.flowNewHash_eq_model_sha256
+#print axioms GoCrypt.FlowModel.flowNewHash_eq_model_sha512
+#print axioms GoCrypt.FlowModel.flowNewHash_eq_model_sha1
+#print axioms GoCrypt.FlowModel.flowNewHash_eq_model_nthash
+#print axioms GoCrypt.FlowModel.flowNewHash_eq_model_desext
+#print axioms GoCrypt.FlowModel.flowNewHash_eq_model_bcrypt
+#print axioms GoCrypt.FlowModel.flowNewHash_eq_model_argon2
+#print axioms GoCrypt.FlowModel.flowNewHash_sunmd5_partial
+#print axioms GoCrypt.FlowModel.flowSalt_eq_model_md5
+#print axioms GoCrypt.FlowModel.flowParams_eq_model_sha256
+#print axioms GoCrypt.FlowModel.flowParams_eq_model_sha512
+#print axioms GoCrypt.FlowModel.flowParams_eq_model_sha1
+#print axioms GoCrypt.FlowModel.flowParams_eq_model_sunmd5
+#print axioms GoCrypt.FlowModel.flowSalt_eq_model_des
+#print axioms GoCrypt.FlowModel.flowParams_eq_model_desext
+#print axioms GoCrypt.FlowModel.flowParams_eq_model_bcrypt
+#print axioms GoCrypt.FlowModel.flowParams_eq_model_argon2
+#print axioms GoCrypt.FlowModel.parameter_names
 end GoCrypt.C12
